@@ -188,6 +188,7 @@ type conc struct {
 	// alphabet hashes to; registered in rHash under the abstract name it stands for.
 	hmu      *sync.Mutex
 	lastText string
+	lastMis  bool // the previous request of this client carried a text and a 64-character hash that is not its own
 }
 
 // carryHashes counts the history-dependent wrong hashes sent (all histories).
@@ -334,7 +335,7 @@ func jstr(s string) string {
 func (c *conc) extJSON(r AReq, get bool) string {
 	h := c.Hash[r.Hash]
 	if r.Ext == "pq" && r.Ver == "1" && r.Text != "" && c.lastText != "" && len(h) == 64 &&
-		!strings.HasPrefix(r.Hash, "h:") && !strings.HasPrefix(r.Hash, "u:") && r.Hash != "x:empty" && c.rnd.Intn(2) == 0 {
+		!strings.HasPrefix(r.Hash, "h:") && !strings.HasPrefix(r.Hash, "u:") && r.Hash != "x:empty" && (c.rnd.Intn(2) == 0 || c.lastMis) {
 		cat := sha(c.lastText + c.Text[r.Text])
 		c.hmu.Lock()
 		if _, dup := c.rHash[cat]; !dup {
@@ -435,6 +436,7 @@ func (c *conc) wire(r AReq) wire {
 		if text != "" {
 			c.lastText = text
 		}
+		c.lastMis = r.Ext == "pq" && r.Ver == "1" && text != "" && len(c.Hash[r.Hash]) == 64 && c.Hash[r.Hash] != sha(text)
 	}()
 	if m == "GET" {
 		ext := c.extJSON(r, true)
